@@ -23,6 +23,7 @@ Inductive op :=
 | OpEmplace (s : nat) (vals : list (list (list Z)))
 | OpPopBack (s : nat)
 | OpErase (s : nat) (i : Z)
+| OpEmplaceAt (s : nat) (i : Z) (vals : list (list (list Z)))
 | OpEraseRange (s : nat) (i j : Z)
 | OpClear (s : nat)
 | OpReserve (s : nat) (n b : Z)
@@ -267,6 +268,9 @@ Definition step (K : akind) (L : list param) (w : world) (o : op) : world :=
   | OpPopBack s =>
       let '(v, e) := pop_back L (getv w s) in
       let w1 := setv w s (Some v) e nb in emit w1 [obs_vec L s w1]
+  | OpEmplaceAt s i vals =>
+      let '(v, e) := emplace_pos L (getv w s) i vals in
+      let w1 := setv w s (Some v) e nb in emit w1 [ORes i; obs_vec L s w1]
   | OpErase s i =>
       let '(v, e) := erase L (getv w s) i in
       let w1 := setv w s (Some v) e nb in emit w1 [ORes i; obs_vec L s w1]
